@@ -113,7 +113,7 @@ static std::string base(std::string const& f) { auto p = f.rfind('/'); return p 
 static int do_call(int m, int f, int a, int b)
 {
   if (m == NM_ID) return nmock->f(a);
-  if (m == WM_ID) return wmock->f(a);
+  if (m == WM_ID) return static_cast<IFace&>(*wmock).f(a);
   switch (f) {
   case 1: return mocks[m]->f(a);
   case 2: return mocks[m]->f(std::string("s") + std::to_string(a));
